@@ -283,3 +283,43 @@ Section DmEmbedProof.
         apply (dm_conjugate Kern N s Hs2 Hs0 (lam j) (mcol V j)). apply Heig. exact Hc.
   Qed.
 End DmEmbedProof.
+
+(* ---------------- packaged statements used by Properties_C09 ---------------- *)
+Lemma dm_exec_model_ok_both :
+  forall (F : Type) (Fo : FieldOps F) (Ff : IsField F)
+         (dist : nat -> nat -> F) (width : F) (expo sqrto : F -> F) (n : nat),
+    compute_diffusion_matrix dist width expo sqrto n = mtab n n (dm_matrix dist width expo sqrto n) /\
+    dm_sqrt_args dist width expo n = vtab n (colsum n (dm_k1 dist width expo n)).
+Proof. intros. split; [apply compute_diffusion_matrix_ok|apply dm_sqrt_args_ok]. Qed.
+
+Lemma dm_diffusion_matrix_full :
+  forall (F : Type) (Fo : FieldOps F) (Ff : IsField F)
+         (dist : nat -> nat -> F) (width : F) (expo sqrto : F -> F) (n : nat),
+    let K := dm_kernel dist width expo in
+    (forall i j, K i j = K j i) /\
+    ((forall i, (i < n)%nat -> dm_P K n i <> 0%F) ->
+     let s := dm_p2 dist width expo sqrto n in
+     (forall i, (i < n)%nat -> s i <> 0%F) ->
+     (forall j, (j < n)%nat -> s j = sqrto (dm_Q K n j)) /\
+     meq n n (dm_matrix dist width expo sqrto n) (dm_sym K n s)).
+Proof.
+  intros F Fo Ff dist width expo sqrto n K. split.
+  - apply dm_kernel_sym.
+  - apply dm_matrix_is_spec.
+Qed.
+
+Lemma dm_operator_facts :
+  forall (F : Type) (Fo : FieldOps F) (Ff : IsField F) (K : mat F) (n : nat) (s : vec F),
+    (forall i, (i < n)%nat -> (s i * s i)%F = dm_Q K n i) ->
+    (forall i, (i < n)%nat -> s i <> 0%F) ->
+    eigvec n (dm_sym K n s) 1%F s /\
+    (forall i, (i < n)%nat -> rowsum n (dm_markov K n) i = 1%F) /\
+    (forall l psi, eigvec n (dm_sym K n s) l psi ->
+                   eigvec n (dm_markov K n) l (fun i => (psi i / s i)%F)).
+Proof.
+  intros F Fo Ff K n s H2 H0. split; [|split].
+  - apply dm_top_eigvec; assumption.
+  - intros i Hi. apply (dm_markov_stochastic K n s H2 H0 i Hi).
+  - intros l psi. apply dm_conjugate; assumption.
+Qed.
+
